@@ -91,6 +91,9 @@ pub enum Un {
   ObserveOn,
   Delay(u64),
   DelaySubscription(u64),
+  /// `delay_at(Instant::now() + h hours)` (h < 0: an instant in the past)
+  DelayAt(i32),
+  DelaySubscriptionAt(i32),
   SubscribeOn,
   Debounce(u64),
   ThrottleTime(u64, Edge),
@@ -179,6 +182,8 @@ impl Node {
           Un::ObserveOn
             | Un::Delay(_)
             | Un::DelaySubscription(_)
+            | Un::DelayAt(_)
+            | Un::DelaySubscriptionAt(_)
             | Un::SubscribeOn
             | Un::Debounce(_)
             | Un::ThrottleTime(..)
@@ -544,4 +549,31 @@ pub fn step_short(s: &Step) -> String {
 }
 pub fn script_short(s: &[Step]) -> String {
   s.iter().map(step_short).collect::<Vec<_>>().join(" ")
+}
+
+
+// ------------------------------------------------------ time / async sources (C08)
+
+#[derive(Clone, Debug, PartialEq, Eq, Hash)]
+pub enum SEv {
+  Item(V),
+  Fail(E),
+  /// Pending once, waking itself
+  Pend,
+  /// Pending until the virtual clock has advanced by this many ticks
+  PendUntil(u64),
+}
+
+#[derive(Clone, Debug, PartialEq, Eq, Hash)]
+pub enum TSrc {
+  Interval(u64),
+  /// interval_at(now + at_h hours, period_h hours)
+  IntervalAt(i32, u64),
+  Timer(V, u64),
+  TimerAt(V, i32),
+  /// from_future: self-waking pending polls, optional wait on the clock, value
+  Future(usize, Option<u64>, V),
+  FutureResult(usize, Option<u64>, Result<V, E>),
+  Stream(Vec<SEv>),
+  StreamResult(Vec<SEv>),
 }
